@@ -41,7 +41,9 @@ class ValueStore:
         """
         Store Value data.
         """
-        if self.has(value_hash):
+        if self.has(value_hash) and self.size(value_hash) == len(data):
+            # Already stored. A file of a different size is a partial write
+            # (e.g. interrupted or in-flight writer) and must be rewritten.
             return
 
         with File(self.get_value_path(value_hash)).open("wb") as out:
